@@ -13,8 +13,10 @@ pub mod c12;
 pub mod c13;
 pub mod c14;
 pub mod c15;
+pub mod c16;
 pub mod c17;
 pub mod c18;
+pub mod c19;
 
 use crate::run::{Ctx, Gen};
 
@@ -46,5 +48,7 @@ pub fn all() -> Vec<Prop> {
         Prop { id: "C15", gens: c15::gens, run: c15::run, rule: c15::RULE, assumptions: c15::ASSUMPTIONS },
         Prop { id: "C18", gens: c18::gens, run: c18::run, rule: c18::RULE, assumptions: c18::ASSUMPTIONS },
         Prop { id: "C17", gens: c17::gens, run: c17::run, rule: c17::RULE, assumptions: c17::ASSUMPTIONS },
+        Prop { id: "C16", gens: c16::gens, run: c16::run, rule: c16::RULE, assumptions: c16::ASSUMPTIONS },
+        Prop { id: "C19", gens: c19::gens, run: c19::run, rule: c19::RULE, assumptions: c19::ASSUMPTIONS },
     ]
 }
